@@ -31,6 +31,10 @@ def make_cases(seed, tier):
     return cases, skipped
 
 
+def dispatch(item):
+    return do_big_cost(item[1]) if item[0] == "big" else do_chunk(item[1])
+
+
 def do_chunk(chunk):
     acc = common.Acc()
     w = rt.vw(FL)
@@ -128,11 +132,53 @@ def do_chunk(chunk):
     return acc
 
 
+def big_cost_cases(tier):
+    """the widest cost spellings the methods document: the result field has to hold them (executed on the -O2
+    build, one process each; tens of seconds of hashing in the quick tier, minutes in the thorough one)"""
+    c = [("sha256crypt", b"$5$rounds=100000000$ab"), ("bsdicrypt", b"_zzzzsalt"), ("sha512crypt", b"$6$rounds=30000000$abcdefghijklmnop")]
+    if tier == "thorough":
+        c += [("sha512crypt", b"$6$rounds=100000000$ab"), ("sha256crypt", b"$5$rounds=999999999$abcdefghijklmnop"),
+              ("sha1crypt", b"$sha1$50000000$" + b"s" * 64), ("sunmd5", b"$md5,rounds=10000000$saltsalt")]
+    return c
+
+
+def do_big_cost(item):
+    m, s = item
+    acc = common.Acc()
+    w = pool.Worker(rt.PATHS["vw-opt"])
+    setup = [rt.obj_line(0, align=1, fill="f")]
+    ln = rt.crypt_line("crypt_rn", 0, b"", s)
+    res, end = w.run(setup + [ln, "checksalt %s" % pool.hx(s)], 3000)
+    w.stop()
+    if end is not None:
+        acc.inconc("big-cost case %r did not finish (%s)" % (s, type(end).__name__))
+        return acc
+    r = res[1]
+    acc.count("evaluations")
+    acc.count("big_cost_hashes")
+    acc.cls((m, "widest-cost"))
+    h = rt.hash_of(r)
+    if r.get("nul") != "1":
+        acc.violation("%s/no-nul/%s" % (PID, m), "setting=%r: no NUL in the output field" % s, rt.replay_obj("opt", setup + [ln]))
+    elif h is None:
+        acc.violation("%s/widest-cost-refused/%s" % (PID, m), "the documented-valid setting %r is refused (errno %s)" % (s, r.get("e")),
+                      rt.replay_obj("opt", setup + [ln]))
+    else:
+        why = gen.wellformed(m, h)
+        if why or not h.startswith(s.rstrip(b"$")):
+            acc.violation("%s/%s/%s" % (PID, why or "setting-not-kept", m),
+                          "setting=%r gives %r (%s)" % (s, h, why or "the result does not start with the setting"),
+                          rt.replay_obj("opt", setup + [ln]))
+    return acc
+
+
 def run(tier):
     run_ = common.Run(PID, tier, "exploration")
-    rt.prepare([FL])
+    rt.prepare([FL, "opt"])
     cases, skipped = make_cases(run_.seed, tier)
-    for acc in pool.pmap(do_chunk, pool.chunks(cases, 25)):
+    work = [("chunk", c) for c in pool.chunks(cases, 25)]
+    # the long-running cases first so that they overlap with everything else
+    for acc in pool.pmap(dispatch, [("big", c) for c in big_cost_cases(tier)] + work):
         run_.merge(acc)
     a = run_.acc
     dig = {}
